@@ -68,6 +68,27 @@ def extract(repo):
     return {'items': items, 'notes': notes}
 
 
+def bridge():
+    """wrappers around the real Vfs::file_for_uri / line_map_for_file carrying, textually, the contracts that the conv unit assumes for
+    its opaque Vfs (live -> live_i, known -> known_i, lm -> lm_i; wf is Vfs::wf)"""
+    verif = os.path.dirname(os.path.dirname(os.path.abspath(__file__)))
+    text = open(os.path.join(verif, 'contracts/conv_prelude.rs')).read()
+    out, names = [], []
+    for line in text.split('\n'):
+        mm = re.match(r'\s*pub fn (file_for_uri|line_map_for_file)\(&self, (.*?)\) -> \((r: .*?)\)\s+requires (.*?)\s+ensures (.*?) \{ unimplemented!\(\) \}\s*$', line)
+        if not mm:
+            continue
+        nm, params, ret, req, ens = mm.groups()
+        sub = lambda t: re.sub(r'\bself\.(live|known|lm)\(', r'self.\1_i(', t)
+        args = ', '.join(a.split(':')[0].strip() for a in params.split(','))
+        out.append('    // the contract assumed for Vfs::%s in contracts/conv_prelude.rs, proved here for the real function\n    fn bridge_conv_%s(&self, %s) -> (%s)\n        requires %s\n        ensures %s\n    { self.%s(%s) }\n'
+                   % (nm, nm, params, ret, sub(req), sub(ens), nm, args))
+        names.append('conv:' + nm)
+    if len(names) != 2:
+        raise AnchorLost('bridge: expected the stand-in contracts of Vfs::file_for_uri and line_map_for_file in contracts/conv_prelude.rs, found %s' % names)
+    return ''.join(out), names
+
+
 def assemble(ex, prelude, fns_spec, loops_spec):
     import weave
     used_fn, used_loop, defaulted = set(), set(), []
@@ -80,10 +101,12 @@ def assemble(ex, prelude, fns_spec, loops_spec):
         linemap.append((line, line + n - 1, it.path, it.line, it.name))
         text += body
         line += n
+    btext, bnames = bridge()
+    text += '// ===== bridge (generated): ' + ', '.join(bnames) + '\n' + btext
     text += '}\n} // verus!\nfn main() {}\n'
     for nm in fns_spec:
         if nm not in used_fn:
             raise AnchorLost('@fn %s: no such function in the working tree' % nm)
     if defaulted:
         raise AnchorLost('no contract for %s' % defaulted)
-    return text, linemap, {'contracted': sorted(used_fn), 'loops_contracted': []}
+    return text, linemap, {'contracted': sorted(used_fn), 'loops_contracted': [], 'bridged_contracts': bnames}
